@@ -77,6 +77,48 @@ def gen_conc(seed, spb, lbits, nthreads=None, profile=None):
     lines.append('seed %d' % r.getrandbits(32))
     return '\n'.join(lines) + '\n'
 
+def gen_reads(seed, spb, lbits):
+    """programs for the instrumented-value variant: readers through every lookup overload (the throwing find copies
+    the value out), writers that update / erase / re-insert / displace / resize the same keys"""
+    r = random.Random(seed)
+    nthreads = r.choice([2, 2, 3])
+    nkeys = r.choice([2, 3, 4])
+    keys = gen.make_keys(r, nkeys + 2, r.choice(['same', 'samelow', 'twobuckets', 'mixed']))
+    lines = ['# conc profile=reads threads=%d' % nthreads, 'cfg %d %d 1 1 0' % (spb, lbits)] + ['key %d %d' % kv for kv in keys.items()]
+    lines.append('init %d' % r.choice([1, 2, 4]))
+    lines.append('pre mhp %d' % r.choice([5, 6]))
+    for k in range(1, nkeys + 1):
+        lines.append('pre insert %d %d' % (k, 10 * k))
+    for t in range(nthreads):
+        ops = []
+        for _ in range(r.choice([1, 2, 3])):
+            k = r.randrange(1, nkeys + 1)
+            if t == 0 or r.random() < 0.3:
+                ops.append(r.choice(['findthrow %d' % k, 'findthrow %d' % k, 'find %d' % k, 'contains %d' % k, 'updatefn %d add:1' % k]))
+            else:
+                ops.append(r.choice(['update %d %d' % (k, r.randrange(90)), 'erase %d ; insert %d %d' % (k, nkeys + 1, r.randrange(90)), 'ioa %d %d' % (k, r.randrange(90)),
+                                     'erase %d ; insert %d %d' % (k, k, r.randrange(90)), 'insert %d %d' % (nkeys + 2, r.randrange(90)), 'rehash %d' % r.choice([1, 2, 3]),
+                                     'updatefn %d add:1' % k, 'erasefn %d eraseifeq:%d' % (k, 10 * k)]))
+        lines.append('thread %d %s' % (t, ' ; '.join(ops)))
+    lines.append('seed %d' % r.getrandbits(32))
+    return '\n'.join(lines) + '\n'
+
+def gen_sweep_reads(seed, spb, lbits, maxpoints=40):
+    """single-preemption sweeps for the instrumented-value variant: a reader of key k is stopped at each of its
+    scheduling points (including the point just before it copies the stored value), a writer then changes / erases /
+    replaces that element and runs to completion, the reader finishes: its result must be the value before or after"""
+    r = random.Random(seed)
+    h = r.getrandbits(64)
+    keys = {1: h, 2: h, 3: h}
+    hdr = ['# conc reads sweep', 'cfg %d %d 1 1 0' % (spb, lbits)] + ['key %d %d' % kv for kv in keys.items()]
+    hdr.append('init %d' % r.choice([1, 2, 4]))
+    hdr.append('pre mhp 5')
+    hdr.append('pre insert 1 10')
+    rd = r.choice(['findthrow 1', 'findthrow 1', 'find 1', 'updatefn 1 add:1'])
+    wr = r.choice(['update 1 20', 'erase 1 ; insert 2 30', 'erase 1 ; insert 2 30 ; insert 3 40', 'ioa 1 25', 'erase 1', 'rehash 3 ; update 1 21'])
+    body = ['thread 0 ' + rd, 'thread 1 ' + wr]
+    return ['\n'.join(hdr + body + ['sched ' + ' '.join(map(str, [0] * j + [-2, -1]))]) + '\n' for j in range(1, maxpoints)]
+
 def gen_sweep(seed, spb, lbits, maxpoints=90, dup_only=False):
     """Systematic single-preemption sweep over a small program built around bucket displacement: both
     candidate buckets of a new key are full (all keys share one hash, or two hashes with equal buckets),
@@ -183,6 +225,34 @@ def gen_sweep_layout(seed, spb, lbits, maxpoints=140):
             sched = [0] * j + [1] * 300
             scripts.append('\n'.join(hdr + body + ['sched ' + ' '.join(map(str, sched))]) + '\n')
     return scripts
+
+def gen_sweep_section(seed, spb, lbits, sin_only=False, maxpoints=45):
+    """single-preemption sweeps around a locked section that replaces / resizes the table: thread 0 runs
+    `lock ; <section operations> ; unlock`, thread 1 one ordinary operation on a key the section touches.
+    (a) thread 1 runs i scheduling points (it has its snapshot, or is about to lock), then the whole section runs,
+    then thread 1 finishes; (b) the section runs j points, thread 1 runs until it blocks, the section finishes, thread 1
+    finishes.  Thread 1 must observe exactly the state the section left."""
+    r = random.Random(seed)
+    h = r.getrandbits(64)
+    style = r.choice(['same', 'mixed'])
+    keys = {k: (h if style == 'same' else r.getrandbits(64)) for k in range(1, 6)}
+    hdr = ['# conc section sweep', 'cfg %d %d 1 1 0' % (spb, lbits)] + ['key %d %d' % kv for kv in keys.items()]
+    hdr.append('init %d' % r.choice([1, 2, 4, 16, 16]))
+    hdr.append('pre mhp 6')
+    for k in (1, 2):
+        hdr.append('pre insert %d %d' % (k, 10 * k))
+    sin = 'l.sin %d 1 11 3 33' % r.choice([0, 1, 2, 3, 4])
+    sec = [sin] if sin_only else [r.choice([sin, sin, 'l.rehash %d' % r.choice([1, 2, 3, 4]), 'l.clear', 'l.erase 1 ; l.insert 3 30',
+                                            'l.rehash %d ; %s' % (r.choice([2, 3]), sin), 'l.insert 3 30 ; l.insert 4 40 ; l.insert 5 50'])]
+    t0 = 'lock ; ' + ' ; '.join(sec) + ' ; unlock'
+    t1 = r.choice(['find 1', 'insert 1 7', 'insert 3 7', 'update 1 8', 'erase 1', 'upsert 1 add:1 1 5', 'find 3', 'updatefn 1 add:1'])
+    body = ['thread 0 ' + t0, 'thread 1 ' + t1]
+    out = []
+    for i in range(1, maxpoints // 2):
+        out.append('\n'.join(hdr + body + ['sched ' + ' '.join(map(str, [1] * i + [-1, -2]))]) + '\n')
+    for j in range(1, maxpoints):
+        out.append('\n'.join(hdr + body + ['sched ' + ' '.join(map(str, [0] * j + [-2, -1, -2]))]) + '\n')
+    return out
 
 def gen_sweep2_layout(seed, spb, lbits, max1=34, max2=22):
     """Two-preemption sweeps over a constructed layout (check-then-act windows): key K has candidate buckets X
